@@ -6,7 +6,9 @@
 //! The oracle is written from the property, not from the code: networks are `(id, len)` pairs,
 //! membership is `id <= a <= id + 2^(32-len) - 1` in u64, lookup is a brute-force search for the
 //! containing key of greatest length in a shadow `HashMap` that follows "last add wins, remove
-//! deletes", iteration order is (len descending, id ascending).
+//! deletes", iteration order is (len descending, id ascending).  CIDR text is judged by a strict
+//! grammar (`d.d.d.d/n`); for text outside it the property is silent and the shadow follows what
+//! the implementation did (classified against the recorded leniency for the statistics).
 use elvis_core::ip_table::IpTable;
 use elvis_core::protocols::arp::subnetting::*;
 use elvis_core::protocols::ipv4::Ipv4Address;
@@ -89,6 +91,26 @@ fn lenient_cidr(s: &str) -> Option<(u32, u32, &'static str)> {
         why = "len_gt_32";
     }
     Some((ip, o_len(v), why))
+}
+
+/// Which key a CIDR string stands for in the shadow map.  Text that denotes a network (strict
+/// grammar) is decided by the oracle alone; for any other text the property is silent, so the
+/// shadow follows what the implementation did with it (accepted as which network / rejected) and
+/// only classifies it against the recorded leniency.
+fn text_key(s: &str) -> (Option<(u32, u32)>, &'static str) {
+    if let Some((a, l)) = strict_cidr(s) {
+        return (Some((o_id(a, l), l)), "strict");
+    }
+    match catch(|| Ipv4Net::from_cidr(s).ok()) {
+        Ok(Some(n)) => {
+            let key = (n.id().to_u32(), n.mask().count_ones());
+            match lenient_cidr(s) {
+                Some((a, l, why)) if (o_id(a, l), l) == key => (Some(key), why),
+                _ => (Some(key), "unrecorded"),
+            }
+        }
+        _ => (None, "rejected"),
+    }
 }
 
 // ---------------------------------------------------------------- executor
@@ -178,6 +200,41 @@ impl Exec {
             );
             // resynchronise
             self.shadow = got.into_iter().collect();
+        }
+    }
+
+    /// order independence through the public constructors: the final content, re-inserted in
+    /// reverse order through each `FromIterator` form, must give an equal table (`==`, same
+    /// iteration order, same lookups at every key boundary)
+    pub fn check_collect(&mut self, out: &mut Out) {
+        let entries: Vec<(Ipv4Net, u32)> = self.table.iter().collect();
+        let rev: Vec<(Ipv4Net, u32)> = entries.iter().rev().cloned().collect();
+        let texts: Vec<(String, u32)> = rev.iter().map(|(n, v)| (format!("{}/{}", n.id(), n.mask().count_ones()), *v)).collect();
+        let r = catch(|| {
+            let a: IpTable<u32> = rev.iter().cloned().collect();
+            let b: IpTable<u32> = rev.iter().map(|(n, v)| ((n.id(), n.mask()), *v)).collect();
+            let c: IpTable<u32> = texts.iter().map(|(s, v)| (s.as_str(), *v)).collect();
+            // duplicates first: a stale value added earlier must be replaced
+            let mut d: IpTable<u32> = IpTable::new();
+            for (n, v) in rev.iter() {
+                d.add(*n, v.wrapping_add(1));
+            }
+            for (n, v) in entries.iter() {
+                d.add(*n, *v);
+            }
+            (a, b, c, d)
+        });
+        match r {
+            Ok((a, b, c, d)) => {
+                out.count("collect.checked");
+                for (name, t) in [("(Ipv4Net, T)", &a), ("((Ipv4Address, Ipv4Mask), T)", &b), ("(&str, T)", &c), ("add twice", &d)] {
+                    let same_iter = t.iter().collect::<Vec<_>>() == entries;
+                    if *t != self.table || !same_iter {
+                        out.fail(&format!("re-inserting the table's {} entries in reverse order via {} gives a different table: {} vs {}", entries.len(), name, dump(t), dump(&self.table)), "order-dependence");
+                    }
+                }
+            }
+            Err(p) => out.fail(&format!("collecting into an IpTable panicked: {}", p.msg), &panic_ident(&p)),
         }
     }
 
@@ -297,14 +354,14 @@ impl Exec {
                 match catch(|| t.add_cidr(&s, val)) {
                     Ok(()) => {
                         out.line(line, &format!("ok iter={}", dump(&self.table)));
-                        match lenient_cidr(&s) {
-                            Some((a, l, why)) => {
+                        match text_key(&s) {
+                            (Some(key), why) => {
                                 out.count(&format!("add_cidr.accepted.{}", why));
-                                if self.shadow.insert((o_id(a, l), l), val).is_some() {
+                                if self.shadow.insert(key, val).is_some() {
                                     self.saw_replace_or_remove = true;
                                 }
                             }
-                            None => out.count("add_cidr.ignored_malformed"),
+                            (None, _) => out.count("add_cidr.ignored_malformed"),
                         }
                         self.check_table(line, w[0], out);
                     }
@@ -318,18 +375,19 @@ impl Exec {
                 let s = String::from_utf8_lossy(&unhex(h)).to_string();
                 let t = &mut self.table;
                 let r = catch(|| t.remove_cidr(&s));
-                let expect = lenient_cidr(&s);
+                let expect = text_key(&s);
                 match r {
                     Ok(()) => {
                         out.line(line, &format!("ok iter={}", dump(&self.table)));
                         match expect {
-                            Some((a, l, _)) => {
-                                if self.shadow.remove(&(o_id(a, l), l)).is_some() {
+                            (Some(key), _) => {
+                                if self.shadow.remove(&key).is_some() {
                                     self.saw_replace_or_remove = true;
                                     out.count("remove_cidr.hit");
                                 }
                             }
-                            None => out.fail(&format!("`{}` ({:?}) was accepted although the text is not CIDR notation", line, s), "remove_cidr accepted-malformed"),
+                            // not a matter of this property (the documented panic is part of the model / correspondence only)
+                            (None, _) => out.count("remove_cidr.malformed_without_panic"),
                         }
                         self.check_table(line, w[0], out);
                     }
@@ -594,15 +652,13 @@ impl Exec {
                                 out.fail(&format!("CIDR text {:?} denotes {}/{} but parses as `{}` (expected `{}`)", s, ip(a), l, txt, exp), "cidr-denotation");
                             }
                         } else if txt.starts_with("ok") {
+                            // text that denotes no network: the property is silent; classify against the recorded leniency
                             match lenient {
                                 Some((a, l, why)) if txt == format!("ok {} {} {}/{}", a, o_bits(l), o_id(a, l), l) => out.count(&format!("cidr.lenient_accept.{}", why)),
-                                _ => out.fail(&format!("text {:?} is not CIDR notation, yet parses as `{}`", s, txt), "cidr-accepts-malformed"),
+                                _ => out.count("cidr.lenient_accept.unrecorded"),
                             }
                         } else {
                             out.count(&format!("cidr.rejected.{}", &txt[4..]));
-                            if lenient.is_some() {
-                                out.fail(&format!("text {:?} rejected (`{}`) although the documented leniency admits it", s, txt), "cidr-leniency-changed");
-                            }
                         }
                     }
                     Err(p) => {
@@ -896,6 +952,7 @@ pub fn run(args: &Args) {
             }
             ex.apply(&l, &mut out);
         }
+        ex.check_collect(&mut out);
         out.end_case();
         out.finish(RULE);
         return;
@@ -910,6 +967,7 @@ pub fn run(args: &Args) {
         for l in &lines {
             ex.apply(l, out);
         }
+        ex.check_collect(out);
         if ex.saw_nested_lookup && ex.saw_replace_or_remove {
             out.mark_nontrivial();
         }
